@@ -48,7 +48,7 @@ Inductive event :=
 (* ghost markers of the API calls (not printed by the runners; the trace theorems speak about them) *)
 | EvWant                        (* Connector::connect_ := true  (Connector::start / restart) *)
 | EvStopReq                     (* Connector::connect_ := false (Connector::stop) *)
-| EvCycle.                      (* a new connect cycle begins: startInLoop called by start() or by restart() *)
+| EvCycle (d : Z).              (* a new connect cycle begins (startInLoop called by start() or by restart()); d = retryDelayMs_ then *)
 
 Record st := mkSt {
   alive : bool;
@@ -210,7 +210,7 @@ Definition removeAndResetChannel (s : st) : option (st * nat) :=
 (* Connector::restart, Connector.cc:119-126 *)
 Definition restart (s : st) : M :=
   let s := set_k_connect (set_k_delay (set_k_state s KDisconnected) Connector_kInitRetryDelayMs) true in
-  bind (Some (s, [EvWant; EvCycle])) startInLoop.
+  bind (Some (s, [EvWant; EvCycle (k_delay s)])) startInLoop.
 
 (* ---------------------------------------------------------------- TcpClient.cc *)
 (* TcpClient::newConnection, TcpClient.cc:132-160 (incl. TcpConnection::connectEstablished) *)
@@ -342,7 +342,7 @@ Definition finish (m : M) : M := bind (bind m gc) settle.
 (* ---------------------------------------------------------------- the functor queue *)
 Definition run_functor (s : st) (f : functor) : M :=
   match f with
-  | FStart => if k_dead s then None else bind (Some (s, [EvCycle])) startInLoop
+  | FStart => if k_dead s then None else bind (Some (s, [EvCycle (k_delay s)])) startInLoop
   | FStop => if k_dead s then None else stopInLoop s
   | FResetChannel => if k_dead s then None else ret (set_k_chan s None)
   | FConnDestroyed c =>
@@ -447,7 +447,7 @@ Definition destroy_rest (s : st) (snap : option nat * bool) (on_loop : bool) : M
     | None =>
         let s := enq (set_k_connect s false) FStop in               (* connector_->stop() *)
         if on_loop then (set_timers s (timers s ++ [(now s + 1000, THack)]), [EvStopReq; EvHack 1000])
-        else (enq s (FAddHack (now s + 1000)), [])
+        else (enq s (FAddHack (now s + 1000)), [EvStopReq])
     end in
   Some (set_dsnap (set_alive (set_connection s None) false) None, ev).
 
@@ -455,7 +455,7 @@ Definition step_core (s : st) (o : op) : option M :=      (* outer None = Reject
   match o with
   | Connect =>
       if negb (user_api_ok s) then None else
-      Some (bind (Some (set_k_connect (set_c_connect s true) true, [EvWant; EvCycle])) startInLoop)
+      Some (bind (Some (set_k_connect (set_c_connect s true) true, [EvWant; EvCycle (k_delay s)])) startInLoop)
   | XConnectFlags =>
       if negb (user_api_ok s) || xc s then None else
       Some (Some (set_xc (set_k_connect (set_c_connect s true) true) true, [EvWant]))
